@@ -122,9 +122,10 @@ PROPS["C13"] = {
 PROPS["C11"] = {
     "skeleton_fns": COMPOSITE,
     "lean_modules": ["GoSup.Props.C11"],
-    "theorems": [],
+    "theorems": ["GoSup.Props.C11.member_spec_nodup", "GoSup.Props.C11.holdsMember_model",
+                 "GoSup.Props.C11.member_spec_fails_with_duplicates", "GoSup.Props.C11.c11_reload"],
     "ties": [],
-    "legs": [{"name": "member", "cmd": "member"}],
+    "legs": [{"name": "member", "cmd": "member"}, {"name": "composite", "cmd": "composite"}],
     "rule": "hasMembershipChanged (through the verif export) on ALL pairs of identity lists up to length 2 (quick) / 3 (thorough) "
             "over a 4-name pool, plus seeded random lists (length 0-6, duplicates, permutations); vs the model and "
             "Spec.C11.holdsMember. Non-trivial = not both empty; distinct by the pair.",
@@ -233,3 +234,38 @@ PROPS["C05"] = {
     "level_note": COMMON_NOTE,
     "design_ref": "DESIGN.md section 5, C05",
 }
+
+COMP_RULE = ("histories on the real composite.Runner with instrumented children from a pool of 2-5 (free or lifecycle-style Stop; "
+             "ReloadWithConfig / Reload / neither): an initial configuration and 1-5 operations - Reload with the next callback result "
+             "(any subset/permutation of the pool with new per-entry values, same membership permuted, empty set, callback error, nil), "
+             "Stop, context cancel, a running child exiting (real error, joined error, cancellation error, nil) - issued sequentially "
+             "(with a snapshot of state and running children after each) or concurrently on a 0-40 ms grid; in a fifth of the cases a "
+             "Stop/cancel is placed at the verif yield point between setConfig and boot of a restart reload. Oracles: Lean statements "
+             "Spec.Comp.holdsC09/C10/C11 on the event trace; sequential histories are also replayed on the operation-level model "
+             "CompSeq and every observed state/snapshot/return must agree. Non-trivial = at least one reload or child exit; distinct by "
+             "(scenario, trace).")
+for _pid, _thms, _text in [
+    ("C09", ["GoSup.Props.C09.c09_conserve", "GoSup.Props.C09.sortNat_perm", "GoSup.Props.C09.unchanged_perm"],
+     "Invariant proof over the operation-level model for histories of any length and pools of any size: Running and not returned "
+     "=> running children = configured children; returned => none running. Overlapping operations (incl. the recorded deadlock) are "
+     "covered by the yield-point harness and the trace oracle, not by a theorem."),
+    ("C10", ["GoSup.Props.C10.c10_failure_propagates", "GoSup.Props.C10.c10_benign_exit", "GoSup.Props.C10.isCancel_join"],
+     "Step theorems over the operation-level model (from ANY state, so after any reload history incl. membership growth): a real "
+     "child error gives ErrRunnableFailed, Error, no child running; nil/cancellation exits change neither state nor result. "
+     "Error classification model validated against errors.Is."),
+]:
+    PROPS[_pid] = {
+        "skeleton_fns": COMPOSITE,
+        "lean_modules": ["GoSup.Props." + _pid],
+        "theorems": _thms,
+        "ties": [],
+        "legs": [{"name": "composite", "cmd": "composite"}] + ([{"name": "errclass", "cmd": "errclass"}] if _pid == "C10" else []),
+        "rule": COMP_RULE,
+        "assumptions": ["children are mock runnables honouring the Runnable contract in the stated style",
+                        "the operation-level model CompSeq treats each public operation as atomic"],
+        "trusted_base": [],
+        "level_text": _text,
+        "level_note": COMMON_NOTE,
+        "design_ref": "DESIGN.md section 5, " + _pid,
+    }
+PROPS["C11"]["rule"] += " " + COMP_RULE
